@@ -146,6 +146,9 @@ def run(ctx):
     ftexts = [('\n' * rng.choice([0, 0, 1, 2]) + t) for t in texts[:ctx.n(500, 5000)]]
     ff = ctx.prop('prop:file-route', [(fpath, t) for t in ftexts if t.strip()], p_file_route)
     fails += [(f[0][1], f[1]) for f in ff]
+    large = _copy.large_copyright_texts(rng, ctx.quick())
+    fails += ctx.prop('prop:ranges:large', large, p_ranges)
+    fails += [(f[0][1], f[1]) for f in ctx.prop('prop:file-route:large', [(fpath, t) for t in large], _copy.p_routes_agree)]
     ctx.notes.append('file route (open, UTF-8 decoding, newline translation) is exercised by execution only, not modelled')
     bad = ctx.compare('corr:copyright', [('copyright_from_text', [t]) for t in texts], _copy.impl)
     bad += ctx.compare('corr:copyright:shifted', [('copyright_from_text', ['\n' * rng.choice([1, 2, 5]) + t]) for t in texts[:ctx.n(3000, 40000)]], _copy.impl)
